@@ -130,7 +130,7 @@ def ent_value_ok(v):
     return '\x1b' not in v and v.count(',') != 4 and v != '\x00'
 
 
-def gen_world(rng, cfg_name, size=3, prop_version=None, empty=False):
+def gen_world(rng, cfg_name, size=3, prop_version=None, empty=False, reuse=None, loaded=None):
     """Generate a consistent, well-formed object graph for every structured lump."""
     from srctools.bsp import (Plane, PlaneType, Edge, Primitive, Face, TexData, TexInfo, BrushSide, Brush,
                               VisLeaf, VisTree, VisLeafFlags, LeafWaterInfo, Visibility, BModel, Cubemap,
@@ -203,10 +203,27 @@ def gen_world(rng, cfg_name, size=3, prop_version=None, empty=False):
         v = rng.choice(w.textures).swapcase()
         if v not in w.textures:
             w.textures.append(v)
+    if reuse is not None and reuse.textures:
+        # names the previously loaded file already has (same spelling and other case)
+        for _ in range(n(1)):
+            v = rng.choice(reuse.textures)
+            v = v.swapcase() if rng.random() < 0.3 else v
+            if v not in w.textures:
+                w.textures.insert(rng.randrange(len(w.textures) + 1), v)
     texdatas = []
     for _ in range(n()):
         mat = rng.choice(w.textures) if w.textures and rng.random() < 0.6 else 'gen/mat%d' % rng.randrange(1000)
         texdatas.append(TexData(mat, fv(), i32(), i32()))
+    if reuse is not None and reuse.texdatas:
+        # NEW TexData objects for materials the loaded file knows, with other reflectivity / size
+        for _ in range(n(1) + 1):
+            old = rng.choice(reuse.texdatas)
+            texdatas.append(TexData(old.mat.swapcase() if rng.random() < 0.3 else old.mat, fv(), i32(), i32()))
+    if loaded is not None and rng.random() < 0.5:
+        # …and some of the very objects that were parsed from the file (an edited rather than replaced view)
+        for ti in rng.sample(list(loaded.texinfo), min(2, len(loaded.texinfo))):
+            if not any(t is ti._info for t in texdatas):
+                texdatas.append(ti._info)
     # distinct TexData for the SAME material (same spelling / other case): equal copy, and different size / reflectivity
     twins(texdatas, lambda t: (setattr(t, 'reflectivity', fv()), setattr(t, 'width', i32()), setattr(t, 'height', i32())),
           p=0.7, make=lambda t: TexData(t.mat, Vec(t.reflectivity), t.width, t.height))
@@ -220,6 +237,10 @@ def gen_world(rng, cfg_name, size=3, prop_version=None, empty=False):
                                      rand_flags(rng, SurfFlags, 31), rng.choice(texdatas)))
         if not empty and len(texdatas) > 1 and rng.random() < 0.8:      # make sure twin texdata are both referenced
             for td in texdatas[-2:]:
+                w.texinfo.append(TexInfo(fv(), rand_f32(rng), fv(), rand_f32(rng), fv(), rand_f32(rng), fv(), rand_f32(rng),
+                                         rand_flags(rng, SurfFlags, 31), td))
+        if reuse is not None and not empty:
+            for td in texdatas[-3:]:       # the re-used materials are always referenced
                 w.texinfo.append(TexInfo(fv(), rand_f32(rng), fv(), rand_f32(rng), fv(), rand_f32(rng), fv(), rand_f32(rng),
                                          rand_flags(rng, SurfFlags, 31), td))
         # equal texinfo (distinct object, same TexData) and one differing only in a shift
